@@ -565,6 +565,12 @@ func (g *G) debugInfo() {
 		if n.Kind != "" {
 			g.feat("di/" + n.Kind)
 		}
+		// any node kind may be written `distinct` (compilers do it for a few kinds only); DIExpression is
+		// always uniqued by LLVM
+		if n.Kind != "" && n.Kind != "DIExpression" && !n.Distinct && !g.off("di-any-distinct") && g.chance("anydistinct", 1, 10) {
+			n.Distinct = true
+			g.feat("di/distinct-on-unusual-kind")
+		}
 	}
 }
 
